@@ -34,6 +34,12 @@ from ..lab import BULK, BULK_MD5, BULK_N  # noqa: E402
 
 CONTENTS.update(BULK)
 MD5.update(BULK_MD5)
+CONTENTS["brackets"] = b"[]"
+MD5["brackets"] = ref.md5(b"[]")
+# an empty directory (its directory object is the listing []) next to a writer staging a file whose content is "[]";
+# a directory whose name contains a backslash next to the nested directory it would read as
+WORKLOADS["emptydir"] = [{}, {"a": "brackets", "b": "x"}]
+WORKLOADS["backslash"] = [{"s\\c/f": "x", "s/c/f": "y"}, {"s\\c/f": "x", "a": "z"}]
 # 1001 files per writer in one directory (beyond the 999-parameter SQL batches of the state database), 700 shared
 WORKLOADS["bulk"] = [{f"f{i:04d}": f"bulk{i}" for i in range(1001)},
                      {f"f{i:04d}": f"bulk{i + BULK_N - 1001}" for i in range(1001)}]
@@ -185,6 +191,7 @@ def one_schedule(cfg, choices):
     with World() as w:
         root = w.root
         for i, t in enumerate(trees):
+            os.makedirs(w.p(f"ws{i}"), exist_ok=True)
             write_tree(w.p(f"ws{i}"), {r: CONTENTS[c] for r, c in t.items()})
         os.makedirs(w.p("tmp"), exist_ok=True)
         shared = [w.p("odb"), w.p("tmp")]
@@ -451,6 +458,9 @@ def _extra_cfgs(tier):
     # crosses the state database's 999-parameter batches with a non-empty table
     for mode in ("threads", "procs"):
         yield {"workload": "bulk", "mode": mode, "first": None, "caps": False}, 0
+    # special values: an empty directory, a backslash in a directory name
+    for name in ("emptydir", "backslash"):
+        yield {"workload": name, "mode": "threads", "first": None, "caps": False}, 1
 
 
 def _reads_cfgs(tier):
